@@ -1183,6 +1183,11 @@ static Value builtin_array_push(Value *args) {
 
 static Value builtin_array_pop(Value *args) {
     /* array_pop(array) -> value */
+    if (args[0].type == VAL_ARRAY && args[0].as.array_val->length == 0) {
+        /* the empty literal [] before its first push */
+        fprintf(stderr, "Runtime Error: array_pop() on empty array\n");
+        exit(1);
+    }
     if (args[0].type != VAL_DYN_ARRAY) {
         fprintf(stderr, "Error: array_pop() requires a dynamic array\n");
         return create_void();
@@ -1191,8 +1196,8 @@ static Value builtin_array_pop(Value *args) {
     DynArray *arr = args[0].as.dyn_array_val;
     
     if (dyn_array_length(arr) == 0) {
-        fprintf(stderr, "Error: array_pop() on empty array\n");
-        return create_void();
+        fprintf(stderr, "Runtime Error: array_pop() on empty array\n");
+        exit(1);  /* Fail fast, like at() / array_set() */
     }
     
     /* Pop element based on type */
@@ -1233,6 +1238,11 @@ static Value builtin_array_pop(Value *args) {
 
 static Value builtin_array_remove_at(Value *args) {
     /* array_remove_at(array, index) -> array */
+    if (args[0].type == VAL_ARRAY && args[0].as.array_val->length == 0 && args[1].type == VAL_INT) {
+        /* the empty literal [] before its first push: every index is out of bounds */
+        fprintf(stderr, "Runtime Error: Array index %lld out of bounds\n", (long long)args[1].as.int_val);
+        exit(1);
+    }
     if (args[0].type != VAL_DYN_ARRAY) {
         fprintf(stderr, "Error: array_remove_at() requires a dynamic array\n");
         return create_void();
